@@ -1632,17 +1632,21 @@ pub fn worker(job: &Job) -> Shard {
         }
     }
     if mode == "power" && !sh.capped {
-        // C09 over faulted histories (no reopen inside them: the faulted run is recorded in-process)
+        // C09 over faulted histories
         let al = [Op::Set(0, 0), Op::Set(0, 1), Op::Set(1, 0), Op::Set(1, 4), Op::Del(0), Op::Merge];
         let mut fwords = words_upto(&al, job.tier.pick(3, 4));
         fwords.retain(|w| !w.is_empty());
-        if job.tier == Tier::Quick {
-            let wr = [Op::Set(0, 0), Op::Set(0, 1), Op::Set(1, 0), Op::Set(1, 4), Op::Del(0)];
-            for x in wr {
-                for y in wr {
+        let wr = [Op::Set(0, 0), Op::Set(0, 1), Op::Set(1, 0), Op::Set(1, 4), Op::Del(0)];
+        for x in wr {
+            for y in wr {
+                if job.tier == Tier::Quick {
                     fwords.push(vec![x, y, Op::Merge, Op::Merge]);
                     fwords.push(vec![x, Op::Merge, y, Op::Merge]);
                 }
+                // a clean restart between the failed call and what follows: what the instance
+                // knew about the failure is gone
+                fwords.push(vec![x, y, Op::Merge, Op::Reopen, Op::Merge]);
+                fwords.push(vec![x, Op::Merge, Op::Reopen, y, Op::Merge]);
             }
         }
         let mut fcfgs = vec![];
